@@ -81,6 +81,10 @@ struct cuthill_mckee {
     static void get(const Matrix &A, Vector &perm) {
         const ptrdiff_t n = backend::rows(A);
 
+        // Nothing to order in an empty matrix (e.g. an MPI process that owns
+        // no rows); the code below assumes at least one node.
+        if (n == 0) return;
+
         /* The data structure used to sort and traverse the level sets:
          *
          * The current level set is currentLevelSet;
